@@ -73,6 +73,7 @@ fn run_enum(prop: P, _tier: Tier, ch: &mut Choices, rep: &mut RunReport) -> Outc
         for k in 0..n.min(K_MAX as u64 - 1) {
             let mut sub = base.clone();
             let mut subrep = RunReport::new(false);
+            crate::core::heartbeat();
             let (out, _) = run_single(prop, &mut sub, &mut subrep, Some((dir, k)));
             merge(rep, &mut subrep, false, "");
             rep.crash_points += 1;
